@@ -606,6 +606,8 @@ def _ortools_metadata(ctx, cls, call):
         ca = ctx.repo.class_attr(cls, sb.attr)
         if isinstance(ca, ast.Constant):
             sb = ca
+    if isinstance(sb, ast.Name) and isinstance(solve.module.assigns.get(sb.id), ast.Constant) and not ctx.flow.defs(solve).of(sb.id):
+        sb = solve.module.assigns[sb.id]  # a module-level constant (`_SOLVED_BY = "ORToolsSolver"`)
     if isinstance(sb, ast.Constant) and sb.value == cls.name or (sb is not None and ast.unparse(sb) in ("self.__class__.__name__", "type(self).__name__")):
         chk.ok("R04.e", solve.qualname, solve.loc(md), "solved_by = class name")
     else:
